@@ -471,7 +471,7 @@ func mainCheck(args []string) int {
 			}
 		}
 		for _, pf := range partial {
-			assumptions = append(assumptions, "PARTIAL contract, safety obligations (index, nil, bounds, callee preconditions) not generated: "+pf)
+			assumptions = append(assumptions, "PARTIAL contract: only the listed obligation kinds are generated for this function; its other obligations (index, nil, bounds, callee preconditions, and any clause kind not listed) are not, and its ensures are used by callers as written: "+pf)
 		}
 		if *prop == "C11" {
 			for _, n := range e.genNotes {
